@@ -372,10 +372,18 @@ func expandAtom(v ssa.Value, pol bool, depth int) []Fact {
 			if !pol {
 				op = negOp(op)
 			}
-			out = append(out, Fact{Kind: "cmp", X: x.X, Op: op, Y: x.Y})
+			// constants are kept on the right (`nil != err` is the fact `err != nil`), so that rules and
+			// reports read the same for either spelling
+			fx, fy := x.X, x.Y
+			if _, isC := fx.(*ssa.Const); isC {
+				if _, isC2 := fy.(*ssa.Const); !isC2 {
+					fx, fy, op = fy, fx, swapOp(op)
+				}
+			}
+			out = append(out, Fact{Kind: "cmp", X: fx, Op: op, Y: fy})
 			// len(s) == 0 / != 0 / > 0 on a string is the same test as s == "" / != "": add the twin so that
 			// either spelling satisfies a rule stated on the other
-			if tw, ok := emptyStringTwin(x.X, op, x.Y); ok {
+			if tw, ok := emptyStringTwin(fx, op, fy); ok {
 				out = append(out, tw)
 			}
 		}
